@@ -10,7 +10,7 @@ checks = {
  "C03": ("exploration", "entropy seam: the same case under K entropy seeds (all HashMap orders, RandomState) on fresh threads, twice under one seed, in the dev-profile build; traces, canonical saves and compiler output must be identical",
          "sampled programs/histories; story seed fixed through the guarded hook; notification order across different variables excluded", "5 C03",
          "getrandom interposition (simulated entropy), K-seed replay comparison, cross-build digest comparison"),
- "C04": ("exploration", "story faults injected by a fault-prone generator and source mutators under seeded host histories (incl. crash-restore, jumps into functions, wrong-arity evaluations, externals unbound and rebound in mid-story); oracle: no panic/abort, zero-division reported, 32-bit wrapping model, reset-after-error in lockstep with fresh, identical logs in the dev (overflow-checked) build",
+ "C04": ("exploration", "story faults injected by a fault-prone generator and source mutators under seeded host histories (incl. crash-restore, jumps into functions, wrong-arity evaluations, externals unbound and rebound in mid-story, short evaluations while the main story rests in the middle of an expression); oracle: no panic/abort, zero-division reported, 32-bit wrapping model, reset-after-error in lockstep with fresh, identical logs in the dev (overflow-checked) build",
          "sampled programs/histories; fuel exhaustion discards runaway stories", "5 C04",
          "seeded host-call scheduler + story-fault injection, crash oracle (catch_unwind / worker death), dev-profile sub-build"),
  "C08": ("fault_enumeration", "virtual clock (clock_gettime seam): EVERY single pause position of every continue, the pause-after-every-read schedule and seeded multi-pause plans; guarded calls issued while paused (in argument variants) must be refused; sliced run in lockstep with plain cont(); a case that never finishes is stuck-async",
@@ -31,7 +31,7 @@ checks = {
  "C13": ("exploration", "warning and error sites (also in statements that print nothing) with handler / no-handler twins over histories with resets, sliced continues and redirections; delivery history: no duplicates between resets, right type, twin agreement, Err exactly on errors, nothing outlives a reset, nothing is delivered while redirected plain text plays",
          "sites run at most once between resets by construction", "5 C13",
          "peer simulation (error handler), delivery-history oracle with a no-handler twin"),
- "C15": ("fault_enumeration", "disk damage to stories and saves: truncation at every byte (thorough, sliced), bit flips, byte loss/duplication, JSON node delete/retype/duplicate/swap, numeric extremes, nesting bombs, foreign saves; both loaders (stream-json-parser sub-build); no panic/abort/hang on an 8 MiB stack; reset after failed load in lockstep with fresh",
+ "C15": ("fault_enumeration", "disk damage to stories and saves: truncation at every byte (thorough, sliced), bit flips, byte loss/duplication, JSON node delete/retype/duplicate/swap, numeric extremes, nesting bombs, foreign saves, variable-pointer cycles; both loaders (stream-json-parser sub-build); no panic/abort/hang on an 8 MiB stack; reset after failed load in lockstep with fresh",
          "quick tier samples damages; a damaged document that loads is not played", "5 C15",
          "storage fault injection (torn/rotted/foreign documents), crash oracle incl. worker death and watchdog"),
  "C16": ("fault_enumeration", "host evaluation of every pure function injected (twice) at EVERY distinct boundary of seeded histories; lockstep with the uninjected history except the function's own visit counts; repeatability and text checks; the returned value equals what the story itself computes for the same call in a copy of the state",
@@ -40,7 +40,7 @@ checks = {
  "C17": ("exploration", "reset_state and jump-with-reset injected at EVERY prefix of seeded histories (flows, loads, errors, observers); lockstep with a freshly constructed instance incl. peers still attached",
          "programs with a foreign inkVersion excluded (constructor-time warning)", "5 C17",
          "reset injection over seeded host histories, lockstep twin against a fresh instance"),
- "C18": ("exploration", "allocator accounting: N identical create-play-drop cycles, play-reset cycles and load-same-save cycles; live bytes after cycle N must equal live bytes after cycle N/2",
+ "C18": ("exploration", "allocator accounting: N identical create-play-drop cycles, play-reset cycles and load-same-save cycles (programs of both compilers, generated ones, and compiled JSON with a choice retargeted to its own container); live bytes after cycle N must equal live bytes after cycle N/2",
          "per-thread accounting (Story is !Send); first cycles excluded as warm-up", "5 C18",
          "counting global allocator (simulated memory accounting), conservation oracle"),
  "C20": ("exploration", "simulated client of the real rinklecate child process: hostile text, scripted stdin with end-of-input at seeded points, fragments, CRLF and cut-off last lines, plain/JSON mode, -k, compile faults, file layouts (blank lines, byte-order mark); strict JSON stream parsing; transcript equality with the in-process library reference; compile output bytes and error reporting",
